@@ -145,6 +145,13 @@ pub fn install_panic_hook() {
         } else {
             "?".to_string()
         };
+        // real tokio facilities that were not replaced by the facade (JoinSet, tokio::io::stdout,
+        // tokio::net, Handle::current, ...) panic because no real runtime exists in the simulated
+        // process. That says nothing about the code under test: the run is a harness error
+        // (exit 2, "cannot simulate this"), never a violation.
+        if msg.contains("must be called from the context of a Tokio") || msg.contains("there is no reactor running") || msg.contains("there is no timer running") || msg.contains("can call blocking only when running on the multi-threaded runtime") {
+            simkit::try_with(|s| s.count("harness:real-tokio-runtime-needed"));
+        }
         let _ = with_panic_cell(|p| {
             let mut p = p.borrow_mut();
             // keep the first panic of a command: later ones are consequences
@@ -289,6 +296,10 @@ fn run_one_mode(prop: &str, f: PropFn, tier: Tier, sandbox: &std::path::Path, ta
             }
             simkit::exec::abort_cleanup();
             let sim = simkit::uninstall();
+            if sim.counters.get("harness:real-tokio-runtime-needed").copied().unwrap_or(0) > 0 && harness_error.is_none() {
+                harness_error = Some("the code under test called a tokio facility that needs the real runtime (not provided by the facade): this run cannot be simulated and is not judged".into());
+                ctx.verdict = Verdict::default();
+            }
             let sys_state = sys::end();
             let mut counters: BTreeMap<String, u64> = sim.counters.iter().map(|(k, v)| (k.to_string(), *v)).collect();
             if sys_state.short_reads > 0 {
